@@ -13,6 +13,11 @@
 // emptied buffer is destroyed, the raw_vector takes one more push_back and is destroyed: the engine's memory checks and
 // leak=1 decide out-of-bounds / double free / leak.  read_from / read_from_opt are checked as one-step histories.
 //
+// h_buffer_failure: from a buffer with r readable elements and `spare` free slots, one failure / early-return path
+// (append_from_opt whose producer scribbles and fails, resize_write_area(0), written(0), append_from writing fewer than
+// offered, append_from_opt returning 0, read_from_opt failing) leaves the caller's SAME buffer with its read area
+// intact; a retry / written / resize and to_raw_vector then hand over everything read before and after.
+//
 // Outside the claim: allocation failure, fcppt::io::read_chars (the iostream client), non-default allocators.
 //@property C07
 #include "verif_api.h"
@@ -245,6 +250,174 @@ void history()
   verif_reach("history-end");
 }
 
+// ---------------------------------------------------------------- failure / early-return paths, then the SAME buffer goes on
+// Pre-state through the public API: r readable elements followed by `spare` unused slots.  One failure or no-op path
+// (solver's choice), after which the caller's buffer must be exactly what it was as far as the read area is concerned,
+// then a continuation (retry that succeeds / fill + written / nothing) and to_raw_vector, which must hand over everything
+// read before the failure plus what the continuation added.
+template <typename T>
+void finish_to_raw_vector(buf<T> &b, model<T> const &m, char const *const id_size, char const *const id_cont)
+{
+  rv<T> v{fcppt::container::buffer::to_raw_vector(std::move(b))};
+  verif_out("size", v.size());
+  verif_assert(v.size() == m.n && v.capacity() >= v.size(), id_size);
+  if (v.size() == m.n)
+  {
+    bool same{true};
+    for (unsigned i = 0; i < m.n; ++i) same = same & (v[i] == m.a[i]);
+    verif_assert(same, id_cont);
+  }
+  T const x{sym<T>("x")};
+  v.push_back(x);
+  verif_assert(v.size() == m.n + 1U && v.back() == x, "after a failure path: the raw_vector accepts push_back");
+}
+
+template <typename T>
+void failure()
+{
+  unsigned const r{static_cast<unsigned>(verif_param("r"))}, spare{static_cast<unsigned>(verif_param("spare"))};
+  model<T> m;
+  m.n = 0;
+  m.w = r + spare;
+  buf<T> b{sz_t{r + spare}};
+  produce(b.write_data(), r, m);
+  b.written(sz_t{r});
+  m.n = r;
+  m.w = spare;
+  check(b, m);
+  T const *const data0{b.read_data()};
+  unsigned const path{shape("path", 5U)};
+  verif_out("path", path);
+  switch (path)
+  {
+  case 0:
+  {
+    // append_from_opt whose producer scribbles into the offered write area and then FAILS
+    unsigned const s{shape("s", 3U)};
+    unsigned const junk{shape("junk", s)};
+    bool called{false};
+    fcppt::optional::object<buf<T>> const res{fcppt::container::buffer::append_from_opt(
+        std::move(b),
+        sz_t{s},
+        [&](T *const p, sz_t const sz) -> fcppt::optional::object<sz_t>
+        {
+          verif_assert(sz == s && !called, "failing append_from_opt: the function is called once with the requested size");
+          called = true;
+          for (unsigned i = 0; i < junk; ++i) p[i] = sym<T>("junk_value");
+          return fcppt::optional::object<sz_t>{};
+        })};
+    verif_assert(called && !res.has_value(), "failing append_from_opt: nothing is returned");
+    m.w = s;
+    verif_assert(b.read_size() == r, "failing append_from_opt: the caller's buffer keeps its read area size");
+    if (s <= spare) verif_assert(b.read_data() == data0, "failing append_from_opt within the spare capacity: no reallocation");
+    break;
+  }
+  case 1:
+    b.resize_write_area(sz_t{0});
+    m.w = 0;
+    verif_assert(b.read_data() == data0 && b.read_size() == r, "resize_write_area(0): read area untouched, no reallocation");
+    break;
+  case 2:
+    b.written(sz_t{0});
+    verif_assert(
+        b.read_data() == data0 && b.read_size() == r && b.write_size() == spare && b.write_data() == data0 + r,
+        "written(0): nothing changes");
+    break;
+  case 3:
+  {
+    // append_from whose producer writes fewer elements than offered
+    unsigned const s{1U + shape("s", 2U)};
+    unsigned const c{shape("c", s - 1U)};
+    b = fcppt::container::buffer::append_from(
+        std::move(b),
+        sz_t{s},
+        [&](T *const p, sz_t const sz) -> sz_t
+        {
+          verif_assert(sz == s, "short append_from: the function is called with the requested size");
+          produce(p, c, m);
+          return c;
+        });
+    m.n += c;
+    m.w = s - c;
+    break;
+  }
+  case 4:
+  {
+    // append_from_opt that succeeds with zero elements
+    unsigned const s{shape("s", 3U)};
+    fcppt::optional::object<buf<T>> res{fcppt::container::buffer::append_from_opt(
+        std::move(b), sz_t{s}, [&](T *, sz_t) -> fcppt::optional::object<sz_t> { return fcppt::optional::object<sz_t>{sz_t{0}}; })};
+    verif_assert(res.has_value(), "append_from_opt returning 0: a buffer is returned");
+    if (res.has_value()) b = std::move(res.get_unsafe());
+    m.w = s;
+    break;
+  }
+  default:
+  {
+    // read_from_opt failing: nothing is returned, the caller's buffer is not involved and nothing leaks
+    unsigned const s{shape("s", 3U)};
+    fcppt::optional::object<buf<T>> const res{fcppt::container::buffer::read_from_opt<buf<T>>(
+        sz_t{s},
+        [&](T *const p, sz_t const sz) -> fcppt::optional::object<sz_t>
+        {
+          verif_assert(sz == s, "failing read_from_opt: the function is called with the requested size");
+          if (s != 0) p[0] = sym<T>("junk_value");
+          return fcppt::optional::object<sz_t>{};
+        })};
+    verif_assert(!res.has_value(), "failing read_from_opt: nothing is returned");
+    break;
+  }
+  }
+  check(b, m); // read area: size and contents exactly as before (plus what a short append reported)
+  unsigned const next{shape("next", 3U)};
+  verif_out("next", next);
+  switch (next)
+  {
+  case 0:
+  {
+    // retry that succeeds
+    unsigned const s{shape("s2", 3U)};
+    unsigned const c{shape("c2", s)};
+    fcppt::optional::object<buf<T>> res{fcppt::container::buffer::append_from_opt(
+        std::move(b),
+        sz_t{s},
+        [&](T *const p, sz_t) -> fcppt::optional::object<sz_t>
+        {
+          produce(p, c, m);
+          return fcppt::optional::object<sz_t>{sz_t{c}};
+        })};
+    verif_assert(res.has_value(), "retry after a failure: a buffer is returned");
+    if (res.has_value()) b = std::move(res.get_unsafe());
+    m.n += c;
+    m.w = s - c;
+    check(b, m);
+    break;
+  }
+  case 1:
+  {
+    unsigned const c{shape("c2", m.w)};
+    produce(b.write_data(), c, m);
+    b.written(sz_t{c});
+    m.n += c;
+    m.w -= c;
+    check(b, m);
+    break;
+  }
+  case 2:
+  {
+    unsigned const s{shape("s2", 3U)};
+    b.resize_write_area(sz_t{s});
+    m.w = s;
+    check(b, m);
+    break;
+  }
+  default: break;
+  }
+  finish_to_raw_vector(
+      b, m, "after a failure path: to_raw_vector has the size of everything read", "after a failure path: to_raw_vector hands over everything read before and after");
+  verif_reach("failure-end");
+}
+
 template <typename T>
 void read_from()
 {
@@ -294,9 +467,12 @@ void read_from()
 
 VERIF_HARNESS(h_buffer_history_i32) { history<int>(); }
 VERIF_HARNESS(h_buffer_history_u8) { history<unsigned char>(); }
+VERIF_HARNESS(h_buffer_failure_i32) { failure<int>(); }
+VERIF_HARNESS(h_buffer_failure_u8) { failure<unsigned char>(); }
 VERIF_HARNESS(h_buffer_read_from_i32) { read_from<int>(); }
 VERIF_HARNESS(h_buffer_read_from_u8) { read_from<unsigned char>(); }
 
 //@harness h_buffer_history_{T} for T in i32,u8 param w0=0..2 param steps=0..2 tier=quick leak=1 paths=100000
 //@harness h_buffer_read_from_{T} for T in i32,u8 tier=quick leak=1
+//@harness h_buffer_failure_{T} for T in i32,u8 param r=0..2 param spare=0..2 tier=quick leak=1
 //@harness h_buffer_history_{T} for T in i32,u8 param w0=0..2 param steps=3 tier=thorough leak=1 paths=400000 wall=1500
